@@ -92,7 +92,9 @@ type proxyCfg struct {
 	ExtraJwtIssuers []string // "issuerURL=audience" (suite tokens: a second fakeIDP acts as the extra issuer)
 	StaticKeys      string   // "" = OIDC discovery | "jwks" = SkipDiscovery + JwksURL | "pem" = SkipDiscovery + PublicKeyFiles
 	SkipIssuerCheck bool     // InsecureSkipIssuerVerification
-	ProviderType          string // "" = oidc; "keycloak-oidc"
+	ProviderType          string // "" = oidc; "keycloak-oidc"; "entra-id"
+	EntraAllowedTenants   []string
+	IdPAdvertisedPKCE     []string // code_challenge_methods_supported of the discovery document (nil = S256 and plain)
 }
 
 type testEnv struct {
@@ -150,6 +152,7 @@ func newEnv(c *suiteCtx, cfg proxyCfg) (*testEnv, error) {
 	}
 	e.tmp = tmp
 	e.idp = newFakeIDP(tClientID)
+	e.idp.advertisedPKCE = cfg.IdPAdvertisedPKCE
 	o := options.NewOptions()
 	o.Cookie.Secret = tCookieSecret
 	if cfg.CookieSecret != "" {
@@ -226,6 +229,7 @@ func newEnv(c *suiteCtx, cfg proxyCfg) (*testEnv, error) {
 	if cfg.ProviderType != "" {
 		pr.Type = options.ProviderType(cfg.ProviderType)
 	}
+	pr.MicrosoftEntraIDConfig.AllowedTenants = cfg.EntraAllowedTenants
 	pr.ClientID = tClientID
 	pr.ClientSecret = tClientSecret
 	pr.OIDCConfig.IssuerURL = e.idp.url()
